@@ -65,6 +65,32 @@ def events(seed, ncfg, nper):
             for i in range(0, 200, 4):
                 ev.append({"kind": "power", "x": bits(x[i]), "u": bits(min(u[i], 1.0)), "p": bits(p), "lo": bits(lo), "hi": bits(hi),
                            "_m": dict(meta0, u=float(u[i]), x=float(x[i]), gen="real")})
+    # ONE call with more events than any internal block size (2**16), not a multiple of it (recorded real generator; a sample of the
+    # events - both ends, around every multiple of 4096, random ones - is judged like any other event), power law and mono-energetic
+    big = 70001
+    for p, lo, hi in ((2.0, 6.0, 12.0), (1.0, 7.0, 11.0), (float(rng.uniform(0.0, 4.0)), 8.0, 10.5)):
+        c = make_config({})
+        c.simulation.spectrum = Simulation.PowerSpectrum(index=p, lower_bound=lo, upper_bound=hi)
+        meta0 = {"index": p, "lo": lo, "hi": hi, "batch": big}
+        np.random.seed(seed + 5)
+        try:
+            with rngmod.Recording() as rec:
+                x, norm, wsum = Spectra(c)(big)
+            x = np.atleast_1d(np.asarray(x, dtype=float))
+        except Exception as ex:
+            ev.append({"kind": "call", "n": big, "len": -1, "norm": bits(float("nan")), "wsum": bits(float("nan")), "spec": "power",
+                       "p": bits(p), "lo": bits(lo), "hi": bits(hi), "_m": dict(meta0, n=big, error=repr(ex)[:200])})
+            continue
+        ev.append({"kind": "call", "n": big, "len": int(len(x)), "norm": bits(norm), "wsum": bits(wsum), "spec": "power",
+                   "p": bits(p), "lo": bits(lo), "hi": bits(hi), "_m": dict(meta0, n=big, norm=float(norm), wsum=float(wsum))})
+        u = np.concatenate([np.ravel(d["values"]) for d in rec.draws]) if rec.draws else np.array([])
+        if len(u) == len(x) == big:
+            pick = set(range(6)) | set(range(big - 12, big)) | set(int(i) for i in rng.integers(0, big, 60))
+            for kk in range(4096, big, 4096):
+                pick |= {kk - 1, kk}
+            for i in sorted(pick):
+                ev.append({"kind": "power", "x": bits(x[i]), "u": bits(min(u[i], 1.0)), "p": bits(p), "lo": bits(lo), "hi": bits(hi),
+                           "_m": dict(meta0, u=float(u[i]), x=float(x[i]), index=i, gen="real")})
     # one Spectra object reused while the configuration's spectrum is replaced (what the CLI overrides do to a config):
     # whatever the object samples from, the two factors returned with the sample must still multiply to 1
     c = make_config({})
